@@ -97,6 +97,8 @@ _RX = [
     ("mssql2000", re.compile(r"^0[xX]0100([0-9a-fA-F]{8})([0-9a-fA-F]{40})([0-9a-fA-F]{40})$")),
     ("mssql2005", re.compile(r"^0[xX]0100([0-9a-fA-F]{8})([0-9a-fA-F]{40})$")),
     ("oracle11", re.compile(r"^S:([0-9a-fA-F]{40})([0-9a-fA-F]{20})$", re.I)),
+    ("scram", re.compile(r"^\$scram\$([ \t+_0-9]+)\$([^$]*)\$([^$]+)$")),
+    ("cisco_type7", re.compile(r"^([ \t+_0-9]{2})((?:[0-9A-Fa-f]{2})*)$")),
     ("fshp", re.compile(r"^\{FSHP(\d+)\|(\d+)\|(\d+)\}([A-Za-z0-9+/]+={0,3})$")),
 ]
 
@@ -137,6 +139,28 @@ def extract(s, only=None):
         if r is not None:
             return r
     return None
+
+
+def scram_full(s):
+    """all (algorithm, digest) pairs of a scram string plus rounds and salt: what verify(full=True) speaks about"""
+    if isinstance(s, bytes):
+        try:
+            s = s.decode("ascii")
+        except UnicodeDecodeError:
+            return None
+    m = dict(_RX)["scram"].match(s) if isinstance(s, str) else None
+    if not m:
+        return None
+    try:
+        pairs = []
+        for part in m.group(3).split(","):
+            alg, eq, dg = part.partition("=")
+            if not eq:
+                return None
+            pairs.append((alg, ab64(dg)))
+        return (_int(m.group(1)), ab64(m.group(2)), tuple(sorted(pairs)))
+    except (ValueError, IndexError):
+        return None
 
 
 def _bc_variant(ident):
@@ -217,6 +241,22 @@ def _decode(name, m):
         return (name, (), _hex(g[0]), _hex(g[1]))
     if name == "oracle11":
         return (name, (), _hex(g[1]), _hex(g[0]))
+    if name == "scram":
+        pairs = []
+        for part in g[2].split(","):
+            alg, eq, dg = part.partition("=")
+            if not eq:
+                raise ValueError
+            pairs.append((alg, ab64(dg)))
+        # documented trade-off of the format's verify(): by default only ONE digest takes part -- the first present of
+        # sha-256, sha-512, sha-224, sha-384, sha-1; verify(full=True) checks all of them (scram_full() below)
+        algs = dict(pairs)
+        used = next((a for a in ("sha-256", "sha-512", "sha-224", "sha-384", "sha-1") if a in algs), None)
+        if used is None or len(algs) != len(pairs):
+            raise ValueError
+        return (name, (_int(g[0]),), ab64(g[1]), (used, algs[used]))
+    if name == "cisco_type7":
+        return (name, (), _int(g[0]), _hex(g[1]))  # (salt = offset into the fixed key, 0..52; the 'digest' is the enciphered password)
     if name == "fshp":
         variant, ssize, rounds = int(g[0]), int(g[1]), int(g[2])
         raw = base64.b64decode(g[3] + "=" * (-len(g[3]) % 4))
